@@ -94,7 +94,12 @@ nb = types.ModuleType('numba')
 def _jit(*a, **k):
     if len(a)==1 and callable(a[0]) and not k: return a[0]
     return lambda f: f
-nb.njit=_jit; nb.jit=_jit; nb.prange=range; nb.vectorize=_jit
+nb.njit=_jit; nb.jit=_jit; nb.prange=range
+def _vectorize(*a, **k):
+    # numba.vectorize turns a scalar function into an element-wise ufunc: np.vectorize is the pure-Python twin
+    if len(a)==1 and callable(a[0]) and not k: return np.vectorize(a[0])
+    return lambda f: np.vectorize(f)
+nb.vectorize=_vectorize
 nb.get_num_threads=lambda:1; nb.set_num_threads=lambda n:None
 nbt=types.ModuleType('numba.typed'); nbt.Dict=dict; nbt.List=list
 nbc=types.ModuleType('numba.core'); nbty=types.ModuleType('numba.core.types'); nbc.types=nbty
